@@ -159,6 +159,10 @@ class InitSegment(DashElement):
         if not self.elt.check_not_none(moov, msg=msg):
             self.logging.error(msg)
             return None
+        for name in ('mvhd', 'trak', 'mvex'):
+            self.elt.check_not_none(
+                moov.find_child(name),
+                msg=f'Mandatory {name} box is missing from the moov box of this init segment')
         self.validate_moov(moov)
         pssh = moov.find_child('pssh')
         if pssh is not None:
@@ -193,7 +197,8 @@ class InitSegment(DashElement):
                     f'DASH timescale {dash_timescale} and media timescale ' +
                     f'{media_timescale} are not multiples of each other'))
 
-        if self.parent.codecs:
+        if self.parent.codecs and self.elt.check_not_none(
+                dash_rep.codecs, msg='Failed to find a sample description (stsd) in this init segment'):
             self.elt.check_equal(
                 dash_rep.codecs.lower(), self.parent.codecs.lower(),
                 msg=f'Expected codec to be {self.parent.codecs} but found {dash_rep.codecs}')
